@@ -1,5 +1,6 @@
 import DryocVerif.Model.SecretStream
 import DryocVerif.Model.SecretBox
+import DryocVerif.Proofs.SecretStream
 namespace DryocVerif.Properties.C04
 open DryocVerif
 
@@ -10,5 +11,43 @@ theorem pull_never_panics (P : Model.SecretStream.Prims) (s : Model.SecretStream
   split <;> try simp
   split <;> try simp
   split <;> simp
+
+
+/-- `pull` is total with exactly two kinds of result: an error that changes nothing, or `Ok` with the
+message length `ct.len() - 17` -/
+theorem pull_err_or_ok (P : Model.SecretStream.Prims) (s : Model.SecretStream.State) (m : Bytes) (tagv : UInt8) (ct ad : Bytes) :
+    Model.SecretStream.pull P s m tagv ct ad = ⟨.err, m, tagv, s⟩ ∨
+    (17 ≤ ct.length ∧ ct.length - 17 ≤ m.length ∧
+      (Model.SecretStream.pull P s m tagv ct ad).res = .ok (ct.length - 17)) := by
+  rw [Proofs.SecretStream.pull_eq]
+  split; · exact Or.inl rfl
+  split; · exact Or.inl rfl
+  split; · exact Or.inl rfl
+  exact Or.inr ⟨by omega, by omega, rfl⟩
+
+/-- the classic stream push never panics: wrong buffer size is an error, everything else succeeds -/
+theorem push_never_panics (P : Model.SecretStream.Prims) (s : Model.SecretStream.State) (ctLen : Nat) (m ad : Bytes) (tag : UInt8) :
+    Model.SecretStream.push P s ctLen m ad tag ≠ .panic ∧
+    (Model.SecretStream.push P s ctLen m ad tag = .err ↔ ctLen ≠ m.length + 17) := by
+  unfold Model.SecretStream.push Model.SecretStream.ABYTES
+  split <;> simp_all
+
+/-- `DryocStream::push` always succeeds -/
+theorem objPush_ok (P : Model.SecretStream.Prims) (s : Model.SecretStream.State) (m ad : Bytes) (tag : UInt8) :
+    ∃ c s', Model.SecretStream.objPush P s m ad tag = .ok (c, s') :=
+  ⟨_, _, Proofs.SecretStream.push_eq P s m ad tag⟩
+
+/-- `DryocStream::pull` never panics, for every ciphertext (any length, 0 included), AD and state -/
+theorem objPull_total (P : Model.SecretStream.Prims) (s : Model.SecretStream.State) (ct ad : Bytes) :
+    (Model.SecretStream.objPull P s ct ad).1 ≠ .panic := by
+  rcases Proofs.SecretStream.objPull_cases P s ct ad with h | ⟨r, _, _, h⟩ <;> rw [h] <;> simp
+
+/-- … more precisely: it is either `Err` with the state untouched, or `Ok` of exactly what the classic
+`pull` wrote into a fresh `ct.len() - 17`-byte buffer, with the classic `pull`'s state -/
+theorem objPull_never_panics (P : Model.SecretStream.Prims) (s : Model.SecretStream.State) (ct ad : Bytes) :
+    Model.SecretStream.objPull P s ct ad = (.err, s) ∨
+    ∃ r, r = Model.SecretStream.pull P s (zeros (ct.length - 17)) 0 ct ad ∧ r.res = .ok (ct.length - 17) ∧
+      Model.SecretStream.objPull P s ct ad = (.ok (r.buf, r.tag), r.st) :=
+  Proofs.SecretStream.objPull_cases P s ct ad
 
 end DryocVerif.Properties.C04
